@@ -765,7 +765,7 @@ func flowScenarioCfg(x *explore.X, depth int, reduced bool) {
 		synctest.Wait()
 		y.c.sendHeaders(7, reqHeaders("/7"), false, http2.PriorityParam{}, 0) // answered by the event A:HEADERS(s7,...)
 	}
-	opened7 := false
+	opened7, resetByB := false, false
 	if !y.oracle("setup") {
 		return
 	}
@@ -828,6 +828,11 @@ func flowScenarioCfg(x *explore.X, depth int, reduced bool) {
 				ended[3] = true
 			}})
 		}
+		if !resetByB {
+			// the RECEIVER cancels stream 1; DATA the sender still had in flight keeps arriving at the relay: those
+			// octets are flow-controlled on the connection and must be credited back like any others
+			evs = append(evs, event{"B:RST(s1)", func() { b.sendRST(1, http2.ErrCodeCancel); resetByB = true }})
+		}
 		if !opened7 {
 			// a header block on ANOTHER stream that shares a field with s3's trailers: header compression is
 			// connection-wide, so the order in which blocks are encoded must be the order in which they are sent
@@ -859,7 +864,7 @@ func flowScenarioCfg(x *explore.X, depth int, reduced bool) {
 				}})
 			}
 		}
-		x.State(y.stateKey(fmt.Sprintf("flow d%d w%d t%v e%v%v o%v", dir, w, tight, ended[1], ended[3], opened7)), depth-step)
+		x.State(y.stateKey(fmt.Sprintf("flow d%d w%d t%v e%v%v o%v r%v", dir, w, tight, ended[1], ended[3], opened7, resetByB)), depth-step)
 		ev := evs[x.ChooseFree(fmt.Sprintf("event%d", step), len(evs))]
 		hist += ev.name + " "
 		x.Logf("%s", ev.name)
@@ -877,6 +882,9 @@ func flowScenarioCfg(x *explore.X, depth int, reduced bool) {
 	for _, s := range []uint32{1, 3, 5} {
 		if y.focus != "C10" {
 			break
+		}
+		if s == 1 && resetByB {
+			continue // the receiver cancelled the stream: what was still on its way need not arrive
 		}
 		if d := prefixDiff(a.sentEl[s], b.gotEl[s]); d != "" || len(a.sentEl[s]) != len(b.gotEl[s]) {
 			x.Failf("not-delivered-after-windows-opened", "after %s+open-all-windows: stream %d: sender emitted %s, receiver holds %s", hist, s, clipEls(a.sentEl[s]), clipEls(b.gotEl[s]))
